@@ -8,7 +8,7 @@
 (*  W1 prune L, proof; new cursor, nothing pruned, whole tree        accepted     *)
 (*  W2 as W1 but the 2nd proof still has L pruned        rejected, class leak     *)
 (*  W3 Prune dropped from the script, proof has L pruned  rejected, class plain   *)
-(*  W4 a bit of the stored hash flipped                   rejected well-formed    *)
+(*  W4 a bit of the stored hash flipped                   rejected stored-hash    *)
 (*  W5 two interleaved sessions, each proof has its own prune only   accepted     *)
 (*  W6 two open sessions, the proof of the one that pruned nothing has L pruned    *)
 (*                                                        rejected, class leak     *)
@@ -16,8 +16,22 @@
 (*  D2 key B, then key A with BOTH leaves pruned         rejected, class leak     *)
 (*  D3 key A answered with the proof of key B             rejected value:pruned   *)
 (*  D4 absent key answered with a proof                   rejected absent-key-proved *)
-(*  D5 key A, stored hash bit flipped                     rejected well-formed    *)
+(*  D5 key A, stored hash bit flipped                     rejected stored-hash    *)
 (*  D6 key A, right proof, wrong returned value           rejected returned-value *)
+(* Two-step proofs.  T2 = root[A[A1,A2], B[B1], C]; the source S2 is the tree under *)
+(* Proof(T2, {A}) (A is a pruned branch of depth 1, root of S2 has level 1).         *)
+(*  P1 prune B (A kept); re-prune A; prune the root (above A)          accepted     *)
+(*  P2 as the 1st proof of P1, kept pruned branch A written with mask 0              *)
+(*                                         rejected level-mask, class partial        *)
+(*  P3 Merkle-proof cell stores hash/depth of S2's root at its HIGHEST level         *)
+(*                                         rejected stored-hash, class partial       *)
+(*  P4 A re-pruned, the new pruned branch stores depth 0 instead of 1                *)
+(*                                         rejected pruned-cell, class partial       *)
+(* DT3 = {KA, KB, KC}; the source is the tree under the proof that keeps KA and KB.  *)
+(*  Q1 key A (prunes above the old pruned branch), key B (re-prunes it), key C       *)
+(*     (path pruned: anything but a panic), absent key refused         accepted     *)
+(*  Q2 key A, Merkle-proof cell stores the hash at the highest level                 *)
+(*                                         rejected stored-hash, class partial       *)
 EXTENDS MerkleProof, Json
 VARIABLE out
 C(b, r) == [b |-> b, x |-> Ordinary, m |-> 0, r |-> r]
@@ -53,9 +67,37 @@ DS3 == << DReset, Key(KA, VA, PB) >>
 DS4 == << DReset, Key(KX, VA, PA) >>
 DS5 == << DReset, Key(KA, VA, FlipBit(PA)) >>
 DS6 == << DReset, Key(KA, VB, PA) >>
-All == WS1 \o WS2 \o WS3 \o WS4 \o WS5 \o WS6 \o DS1 \o DS2 \o DS3 \o DS4 \o DS5 \o DS6
+\* ---- two-step proofs
+T2 == << C(<<1,0,1>>, <<2, 5, 7>>), C(<<0,1,1,0>>, <<3, 4>>), C(<<1>>, <<>>), C(<<0,0>>, <<>>), C(<<1,1,1,1,0>>, <<6>>), C(<<0,1,0>>, <<>>), C(<<1,1,1,1>>, <<>>) >>
+S2 == WithMasks(Body(Proof(T2, 1, {<<1>>})))          \* root[pruned(A), B[B1], C]
+IS2 == InfoTable(S2)
+TableJsonM(T) == [i \in 1..Len(T) |-> [b |-> BitsToStr(T[i].b), x |-> T[i].x, m |-> T[i].m, r |-> [j \in 1..Len(T[i].r) |-> T[i].r[j] - 1]]]
+PReset == [k |-> "Reset", kind |-> "walk", src |-> "canary", mode |-> "proof", n |-> 0, cells |-> TableJsonM(S2), roots |-> <<0>>,
+           orig |-> [cells |-> TableJson(T2), roots |-> <<0>>]]
+QB == Proof(S2, 1, {<<2>>})      \* rows: 1 Merkle proof, 2 root, 3 A (kept pruned branch), 4 B (new pruned branch), 5 C
+QA == Proof(S2, 1, {<<1>>})      \* A pruned again: the same pruned branch
+QR == Proof(S2, 1, {<<>>})       \* the root pruned: above A
+Bytes(PT, i) == DataBytes(PT[i].b)
+PSS1 == << PReset, Cur(1), Ref0(1, 1), Pr(1), Cr(1, QB), Cur(2), Ref0(2, 0), Pr(2), Cr(2, QA), Cur(3), Pr(3), Cr(3, QR) >>
+PSS2 == << PReset, Cur(1), Ref0(1, 1), Pr(1), Cr(1, [QB EXCEPT ![3].m = 0]) >>
+PSS3 == << PReset, Cur(1), Ref0(1, 1), Pr(1), Cr(1, [QB EXCEPT ![1].b = BytesToBits(<<3>> \o IS2[1].h[4] \o U16(IS2[1].d[4]))]) >>
+PSS4 == << PReset, Cur(1), Ref0(1, 0), Pr(1), Cr(1, [QA EXCEPT ![3].b = BytesToBits(SubSeq(Bytes(QA, 3), 1, 34) \o <<0, 0>>)]) >>
+KC == <<1,1,0,0,0,0,0,0>>   VC == [i \in 1..32 |-> IF i % 3 = 0 THEN 1 ELSE 0]
+DT3 == EncEdge(<< [k |-> KA, v |-> [b |-> VA, r |-> <<>>]], [k |-> KB, v |-> [b |-> VB, r |-> <<>>]], [k |-> KC, v |-> [b |-> VC, r |-> <<>>]] >>, 0, 8, <<"short">>, <<>>)
+KeepAB == KeepKeysPruneSet(DT3, 1, 8, {KA, KB})
+S3 == WithMasks(Body(Proof(DT3, 1, KeepAB)))
+IS3 == InfoTable(S3)
+QReset == [k |-> "Reset", kind |-> "dict", src |-> "canary", mode |-> "proof", n |-> 8, cells |-> TableJsonM(S3), roots |-> <<0>>,
+           orig |-> [cells |-> TableJson(DT3), roots |-> <<0>>]]
+QKA == Proof(S3, 1, {<<2>>})    QKB == Proof(S3, 1, {<<1>>, <<2, 2>>})
+QS1 == << QReset, Key(KA, VA, QKA), Key(KB, VB, QKB), Refused(KC), Refused(KX) >>
+QS2 == << QReset, Key(KA, VA, [QKA EXCEPT ![1].b = BytesToBits(<<3>> \o IS3[1].h[4] \o U16(IS3[1].d[4]))]) >>
+All == WS1 \o WS2 \o WS3 \o WS4 \o WS5 \o WS6 \o DS1 \o DS2 \o DS3 \o DS4 \o DS5 \o DS6 \o PSS1 \o PSS2 \o PSS3 \o PSS4 \o QS1 \o QS2
 Init == out = "todo"
-Next == out = "todo" /\ out' = "done" /\ PrintT(<<"VEC", ToJson([events |-> All, lens |-> <<Len(WS1), Len(WS2), Len(WS3), Len(WS4), Len(WS5), Len(WS6), Len(DS1), Len(DS2), Len(DS3), Len(DS4), Len(DS5), Len(DS6)>>,
-                                                                selfcheck |-> (WellFormed(PL) /\ WellFormed(P0) /\ WellFormed(PAB) /\ DecEdge(DT, 1, 8, <<>>).ok)])>>)
+Next == out = "todo" /\ out' = "done" /\ PrintT(<<"VEC", ToJson([events |-> All, lens |-> <<Len(WS1), Len(WS2), Len(WS3), Len(WS4), Len(WS5), Len(WS6), Len(DS1), Len(DS2), Len(DS3), Len(DS4), Len(DS5), Len(DS6), Len(PSS1), Len(PSS2), Len(PSS3), Len(PSS4), Len(QS1), Len(QS2)>>,
+                                                                selfcheck |-> (WellFormed(PL) /\ WellFormed(P0) /\ WellFormed(PAB) /\ DecEdge(DT, 1, 8, <<>>).ok
+                                                                               /\ SourceOK(S2) /\ Partial(S2) /\ S2[1].m = 1 /\ IS2[1].h[4] # IS2[1].h[1] /\ IS2[2].d[1] = 1
+                                                                               /\ WellFormed(QB) /\ WellFormed(QA) /\ WellFormed(QR) /\ QA = Proof(S2, 1, {})
+                                                                               /\ KeepAB = {<<2, 2>>} /\ SourceOK(S3) /\ WellFormed(QKB))])>>)
 Spec == Init /\ [][Next]_out
 =============================================================================
